@@ -69,7 +69,7 @@ def main():
     demo = os.path.join(dst, "demo_test.go")
     patch = os.path.join(dst, "patch.diff")
     # the demonstration goes where its package clause says (root package or decor/)
-    first = open(os.path.join(dst, "demo_test.go")).read(4000)
+    first = "\n" + open(os.path.join(dst, "demo_test.go")).read(8000)
     sub = "."
     for cand in ("decor", "cwriter", "internal"):
         if f"\npackage {cand}\n" in first or f"\npackage {cand}_test\n" in first:
